@@ -305,10 +305,20 @@ def resume_point(cx):
     bp = cx.fn("Progress::become_probe")
     ws = [s for s in cx.prog.writes.get("Progress.next_idx", []) if s.fn is bp and "stmt" in s.data]
     seen = False
+    g = cx.pg(bp)
+    a = cx.prog.A(bp)
     for s in ws:
-        gl = cx.guard_lits(s)
-        if any(lit_state("Snapshot")(l) for l in gl):
-            v = write_value(cx, s)
+        # the value written on the paths that come from the Snapshot state (the value may be chosen by a `match` on
+        # the old state before the state is reset, and stored afterwards)
+        try:
+            rows = g.site_values(s.at, lambda env, s=s: a.expr_rvalue(s.data["stmt"]["rv"], s.at, 0, env))
+        except OverflowError:
+            rows = [(tuple(cx.guard_lits(s)), write_value(cx, s))]
+        vals = []
+        for lits, v in rows:
+            if any(lit_state("Snapshot")(l) for l in lits) and v not in vals:
+                vals.append(v)
+        for v in vals:
             mx = as_max(v)
             ok = mx is not None and all(x[0] == "bin" and x[1] == "Add" and ("int", 1) in x[2:] for x in mx) and \
                 {("matched" if contains(fld("Progress.matched"), x) else "pending" if (contains(fld("Progress.pending_snapshot"), x) or any(y[0] in ("local", "param") for y in walk(x))) else "?") for x in mx} == {"matched", "pending"}
@@ -372,6 +382,24 @@ def request_index(cx):
         v = write_value(cx, s)
         ok = v == ("int", 0) or is_f(v, PRS)
         cx.check(ok, cx.site_key(s, "write:" + PRS), "elsewhere pending_request_snapshot is only cleared or carried over (found %s)" % show(v)[:80], s)
+        n += 1
+    # on the leader the request travels message -> progress -> storage unchanged: what a progress records as requested
+    # is the `request_snapshot` field of the follower's message (or nothing)
+    PPR = "Progress.pending_request_snapshot"
+    for s in cx.prog.writes.get(PPR, []):
+        if "stmt" not in s.data or s.fn.impl_trait:
+            continue
+        v = write_value(cx, s)
+        key = cx.site_key(s, "write:" + PPR)
+        if v == ("int", 0) or s.fn.name == "new":
+            continue
+        ok = False
+        if is_f(v, "Message.request_snapshot"):
+            ok = True
+        elif v[0] == "param":
+            cs = callers_of(cx, s.fn)
+            ok = bool(cs) and all(is_f(call_args(cx, c)[v[1] - 1], "Message.request_snapshot") for c in cs if c.fn.crate == "raft" and "test" not in c.fn.key.split("::")[-2:])
+        cx.check(ok, key, "a progress records as requested exactly the request_snapshot index of the follower's message (found %s)" % show(v)[:80], s)
         n += 1
     # the leader hands the requested index on to the storage, which must not answer with an older snapshot
     for c in cx.prog.call_sites_of("RaftLog::snapshot"):
